@@ -11,6 +11,7 @@ using namespace Fastor;
 // FORM 3: pointer kernel _matmul writing straight into the guard-flush buffer
 // FORM 4: lazy product of expressions ((A+0) % (B-0)) assigned to an existing tensor
 // FORM 5: rank-1 operand forms through operator% only
+// FORM 6/7: lazy product accumulated into an existing tensor: C(=1) += A % B, C(=1) -= A % B (the _gemm route)
 // vf::opaque(C) after each product: a compiler barrier that keeps every store to the local result observable.
 // g++ 12.2's RTL dead-store elimination otherwise deletes stores to C when the inlined copy-out reads C through a
 // register that also holds the one-past-the-end address of the adjacent local B (DESIGN.md 11.5) — a toolchain
@@ -27,6 +28,8 @@ void thunk(const T *a, const T *b, T *out) {
   if constexpr (FORM == 0) { Tensor<T, M, N> C = matmul(A, B); vf::opaque(C); std::copy(C.data(), C.data() + M * N, out); }
   else if constexpr (FORM == 1) { Tensor<T, M, N> C = A % B; vf::opaque(C); std::copy(C.data(), C.data() + M * N, out); }
   else if constexpr (FORM == 4) { Tensor<T, M, N> C; C.fill(T(77)); C = (A + T(0)) % (B - T(0)); vf::opaque(C); std::copy(C.data(), C.data() + M * N, out); }
+  else if constexpr (FORM == 6) { Tensor<T, M, N> C; C.fill(T(1)); C += A % B; vf::opaque(C); std::copy(C.data(), C.data() + M * N, out); }
+  else if constexpr (FORM == 7) { Tensor<T, M, N> C; C.fill(T(1)); C -= A % B; vf::opaque(C); std::copy(C.data(), C.data() + M * N, out); }
   else if constexpr (FORM == 2 || FORM == 5) {
     if constexpr (N == 1) {
       Tensor<T, K> v; std::copy(b, b + K, v.data());
@@ -46,7 +49,7 @@ void thunk(const T *a, const T *b, T *out) {
 template <class T>
 void driver(vf::Draw &d, vf::Ctx &ctx, size_t M, size_t K, size_t N, int form, void (*kern)(const T *, const T *, T *)) {
   static const char *names[] = {"matmul(A,B)", "C = A % B", "matmul with rank-1 operand", "_matmul pointer kernel",
-                                "C = (A+0) % (B-0)", "operator% with rank-1 operand"};
+                                "C = (A+0) % (B-0)", "operator% with rank-1 operand", "C(=1) += A % B", "C(=1) -= A % B"};
   std::vector<T> A(M * K), B(K * N);
   int mode = (int)d.integer(0, 2);            // 0,1: integer-valued (exact)   2: dyadic reals (rounding bound)
   bool exact = mode < 2 || std::is_integral<T>::value;
@@ -54,6 +57,8 @@ void driver(vf::Draw &d, vf::Ctx &ctx, size_t M, size_t K, size_t N, int form, v
   else { vf::fill_reals(d, A.data(), M * K); vf::fill_reals(d, B.data(), K * N); }
   std::vector<vfo::wide_t<T>> ref; std::vector<vfo::ld> absm;
   vfo::matmul_ref<T>(A.data(), B.data(), M, K, N, ref, absm);
+  if (form == 6 || form == 7)
+    for (size_t i = 0; i < M * N; ++i) { ref[i] = form == 6 ? vfo::wide_t<T>(1) + ref[i] : vfo::wide_t<T>(1) - ref[i]; absm[i] += 1; }
   ctx.nt(M * K * N > 1 && vfo::count_nonzero(A.data(), M * K) >= std::min<size_t>(2, M * K) &&
          vfo::count_nonzero(B.data(), K * N) >= std::min<size_t>(2, K * N));
   ctx.label(exact ? "data:int" : "data:real");
